@@ -101,8 +101,8 @@ def parseNode : Nat → List String → Option (Cfg × List String)
       let (t, r) ← parseNode fuel r
       if he then
         let (f, r) ← parseNode fuel r
-        some (.filter c sc t (some f), r)
-      else some (.filter c sc t none, r)
+        some (.filter c sc t f, r)
+      else some (.filter c sc t .absent, r)
     | [] => none
   | _, _ => none
 def parseList : Nat → Nat → List String → Option (CfgL × List String)
@@ -120,7 +120,8 @@ def cfgOk : Cfg → Bool
   | .leaf (.ping s h p q) _ => okUrl s h p q
   | .leaf _ _ => true
   | .group _ _ ms => cfgLOk ms
-  | .filter c _ t f => condOk c && cfgOk t && (match f with | none => true | some f => cfgOk f)
+  | .filter c _ t f => condOk c && cfgOk t && cfgOk f
+  | .absent => true
 def cfgLOk : CfgL → Bool
   | .nil => true
   | .cons c l => cfgOk c && cfgLOk l
